@@ -9,10 +9,11 @@ import Mdsort.Proofs.Safety
 `skipline` returns, the three outcomes of `parseboundary` with the `strndup`ed boundary, and the position and
 terminator flag `findboundary` returns are those of the list model on the view.
 
-`findboundary` is special: the list model re-examines every line start, the C code (and its L0 transcription) resumes
-with `skipline` from the byte after the text it has just compared, so a line start INSIDE a matched boundary is
-never examined.  The two agree exactly when the boundary contains no newline; a boundary with a newline (obtainable
-from an RFC 2047 encoded word in the Content-Type value) separates them (`l0r_findBoundary_newline_witness`).
+`findboundary` resumes, after a failed comparison, with `skipline` from the byte after the text it has just compared,
+so a line start INSIDE a matched boundary is never examined (this matters only for a boundary that contains a newline,
+obtainable from an RFC 2047 encoded word in the Content-Type value).  The list model `Model.findBoundaryAux` follows
+the C code in this (package PG3; it used to re-examine every line start), so the refinement holds for EVERY boundary;
+`l0r_findBoundary_newline_example` is the input that separated the former list model from message.c.
 -/
 
 namespace Mdsort.L0
@@ -197,42 +198,6 @@ theorem l0r_map_shift_prepend (o : Option (Bytes × Bool × Bytes)) (pre : Bytes
   | none => rfl
   | some x => simp [l0r_shift, prependPre, Nat.add_assoc]
 
-theorem l0r_fba_false_of_none {B s : Bytes} (h : Model.delimiterLine B s = none) :
-    Model.findBoundaryAux B s true = Model.findBoundaryAux B s false := by
-  cases s with
-  | nil => rfl
-  | cons c r => rw [Proofs.findBoundaryAux_cons, Proofs.findBoundaryAux_cons]; simp [h]
-
-theorem l0r_fba_prefix (B pfx t : Bytes) (hp : 10 ∉ pfx) :
-    Model.findBoundaryAux B (pfx ++ t) false = (Model.findBoundaryAux B t false).map (prependPre pfx) := by
-  induction pfx with
-  | nil =>
-    rw [List.nil_append]
-    cases Model.findBoundaryAux B t false <;> simp [prependPre]
-  | cons c p ih =>
-    have hc : (c == 10) = false := by
-      have : c ≠ 10 := fun e => hp (by simp [e])
-      simpa using this
-    rw [List.cons_append, Proofs.findBoundaryAux_cons]
-    simp only [Bool.false_eq_true, if_false, hc]
-    rw [ih (fun e => hp (by simp [e]))]
-    cases Model.findBoundaryAux B t false <;> simp [prependPre]
-
-theorem l0r_fba_line (B s : Bytes) :
-    Model.findBoundaryAux B s false =
-      (Model.findBoundaryAux B (s.drop (l0r_lineLen s)) true).map (prependPre (s.take (l0r_lineLen s))) := by
-  induction s with
-  | nil => simp [Model.findBoundaryAux, l0r_lineLen]
-  | cons c r ih =>
-    rw [Proofs.findBoundaryAux_cons]
-    simp only [Bool.false_eq_true, if_false]
-    by_cases hc : (c == 10) = true
-    · simp only [l0r_lineLen, hc, if_true, List.drop_succ_cons, List.drop_zero, List.take_succ_cons, List.take_zero]
-    · have hc' : (c == 10) = false := by simpa using hc
-      simp only [l0r_lineLen, hc', Bool.false_eq_true, if_false, List.drop_succ_cons, List.take_succ_cons]
-      rw [ih]
-      cases Model.findBoundaryAux B (r.drop (l0r_lineLen r)) true <;> simp [prependPre]
-
 theorem l0r_delim_none1 {B V : Bytes} (h : startsWith V [45, 45] = false) : Model.delimiterLine B V = none := by
   simp [Model.delimiterLine, h]
 
@@ -256,6 +221,24 @@ theorem l0r_delim_3 (B V3 : Bytes) :
   simp only [hd, h2, Bool.not_true, Bool.false_eq_true, if_false, List.drop_left]
   rfl
 
+theorem l0r_cont_1 {B V : Bytes} (h : startsWith V [45, 45] = false) : Model.continueAt B V = V := by
+  simp [Model.continueAt, h]
+
+theorem l0r_cont_2 {B V2 : Bytes} (h : startsWith V2 B = false) : Model.continueAt B ([45, 45] ++ V2) = V2 := by
+  have h1 : startsWith ([45, 45] ++ V2) [45, 45] = true := Proofs.isPrefixOf_append_self _ _
+  have hd : ([45, 45] ++ V2).drop 2 = V2 := rfl
+  unfold Model.continueAt
+  simp only [h1, Bool.not_true, Bool.false_eq_true, if_false, hd, h, Bool.not_false, if_true]
+
+theorem l0r_cont_3 (B V3 : Bytes) :
+    Model.continueAt B ([45, 45] ++ (B ++ V3)) = (if startsWith V3 [45, 45] then V3.drop 2 else V3) := by
+  have h1 : startsWith ([45, 45] ++ (B ++ V3)) [45, 45] = true := Proofs.isPrefixOf_append_self _ _
+  have h2 : startsWith (B ++ V3) B = true := Proofs.isPrefixOf_append_self _ _
+  unfold Model.continueAt
+  simp only [h1, Bool.not_true, Bool.false_eq_true, if_false]
+  have hd : ([45, 45] ++ (B ++ V3)).drop 2 = B ++ V3 := rfl
+  simp only [hd, h2, Bool.not_true, Bool.false_eq_true, if_false, List.drop_left]
+
 theorem l0r_strncmp_prefix (s p : Bytes) : decide (s.take p.length = p.take p.length) = startsWith s p := by
   simp only [List.take_length, startsWith]
   rw [Bool.eq_iff_iff]
@@ -269,27 +252,29 @@ theorem l0r_map_prepend_nil (o : Option (Bytes × Bool × Bytes)) : o.map (prepe
 
 /-! ## findboundary -/
 
-/-- `findboundary`'s loop for a boundary without a newline: the line it returns and its terminator flag are the list
-model's.  (`!skip`: entered with `skip = 0` the text is at the beginning of a line, a `continue` is inside one.) -/
-theorem l0r_findBoundaryLoop_refines (bnd b : Buf) (hb : bnd.HasNul 0) (hnl : 10 ∉ bnd.view 0) :
+/-- `findboundary`'s loop, for EVERY boundary: the line it returns and its terminator flag are the list model's.
+Entered with `skip = 0` the text at `s` is examined; a `continue` re-enters with `skip = 1` and the list model
+passes over the rest of the line (`l0r_lineLen` bytes) unseen. -/
+theorem l0r_findBoundaryLoop_refines (bnd b : Buf) (hb : bnd.HasNul 0) :
     ∀ (n s : Nat) (skip : Bool), 2 * (b.size - s) + (if skip then 0 else 1) = n → b.HasNul s →
       findBoundaryLoop bnd (bnd.view 0).length b s skip =
-        .ok ((Model.findBoundaryAux (bnd.view 0) (b.view s) (!skip)).map (l0r_shift s)) := by
+        .ok ((Model.findBoundaryAux (bnd.view 0) (b.view s) (if skip then l0r_lineLen (b.view s) else 0)).map
+          (l0r_shift s)) := by
   intro n
   induction n using Nat.strongRecOn with
   | _ n ih =>
     intro s skip hn h
     -- the beginning of the line examined
     have hls : ∃ s1, lineStart b s skip = .ok s1 ∧ s ≤ s1 ∧ b.HasNul s1 ∧
-        (Model.findBoundaryAux (bnd.view 0) (b.view s) (!skip)).map (l0r_shift s) =
-          (Model.findBoundaryAux (bnd.view 0) (b.view s1) true).map (l0r_shift s1) := by
+        (Model.findBoundaryAux (bnd.view 0) (b.view s) (if skip then l0r_lineLen (b.view s) else 0)).map (l0r_shift s) =
+          (Model.findBoundaryAux (bnd.view 0) (b.view s1) 0).map (l0r_shift s1) := by
       cases skip with
       | false => exact ⟨s, rfl, Nat.le_refl _, h, rfl⟩
       | true =>
         obtain ⟨hn1, hv1⟩ := h.add _ (l0r_lineLen_le (b.view s))
         refine ⟨_, by simp only [lineStart, if_true]; exact l0r_skipLine_spec h, by omega, hn1, ?_⟩
-        simp only [Bool.not_true]
-        rw [l0r_fba_line, l0r_map_shift_prepend, hv1]
+        simp only [if_true]
+        rw [Proofs.findBoundaryAux_hop' _ _ _ (l0r_lineLen_le _), l0r_map_shift_prepend, hv1]
         have : ((b.view s).take (l0r_lineLen (b.view s))).length = l0r_lineLen (b.view s) := by
           rw [List.length_take]; exact Nat.min_eq_left (l0r_lineLen_le _)
         rw [this]
@@ -301,22 +286,41 @@ theorem l0r_findBoundaryLoop_refines (bnd b : Buf) (hb : bnd.HasNul 0) (hnl : 10
       simp [Model.findBoundaryAux]
     · rw [findBoundaryLoop_eq hs1 hg]
       simp only [beq_iff_eq, hc, if_false]
+      have hne1 : b.view s1 ≠ [] := by rw [hv]; exact List.cons_ne_nil _ _
       have hgt : skip = true → s < s1 := fun e => by subst e; exact lineStart_gt hs1 hg hc
       have hmeas : ∀ s', s1 ≤ s' → 2 * (b.size - s') + 0 < n := by
         intro s' hs'
         cases skip with
         | false => simp at hn; omega
         | true => have := hgt rfl; simp at hn; omega
-      -- a `continue` from `s'`, reached over `pfx` without a newline, on a line that is no delimiter line
-      have hcont : ∀ (s' : Nat) (pfx : Bytes), b.HasNul s' → b.view s1 = pfx ++ b.view s' → 10 ∉ pfx →
-          s' = s1 + pfx.length → Model.delimiterLine (bnd.view 0) (b.view s1) = none →
+      -- a `continue` from `s'`, the position the comparisons have reached over `pfx`, on a line that is no
+      -- delimiter line: the next round examines the line `skipline` finds from `s'`
+      have hcont : ∀ (s' : Nat) (pfx : Bytes), b.HasNul s' → b.view s1 = pfx ++ b.view s' →
+          s' = s1 + pfx.length → b.view s' = Model.continueAt (bnd.view 0) (b.view s1) →
+          Model.delimiterLine (bnd.view 0) (b.view s1) = none →
           findBoundaryLoop bnd (bnd.view 0).length b s' true =
-            .ok ((Model.findBoundaryAux (bnd.view 0) (b.view s1) true).map (l0r_shift s1)) := by
-        intro s' pfx hns' hvs' hpfx hpos hD
+            .ok ((Model.findBoundaryAux (bnd.view 0) (b.view s1) 0).map (l0r_shift s1)) := by
+        intro s' pfx hns' hvs' hpos hca hD
         have := ih _ (hmeas s' (by omega)) s' true rfl hns'
-        rw [this, l0r_fba_false_of_none hD]
-        simp only [Bool.not_true]
-        conv => rhs; rw [hvs', l0r_fba_prefix _ _ _ hpfx, l0r_map_shift_prepend, ← hpos]
+        rw [this]
+        simp only [if_true]
+        rw [Proofs.findBoundaryAux_hop' _ _ _ (l0r_lineLen_le _), l0r_map_shift_prepend, ← l0r_skipLine_drop,
+          Proofs.findBoundaryAux_continue hne1 hD, l0r_map_shift_prepend]
+        have hnl : Proofs.nextLine (bnd.view 0) (b.view s1) = Model.skipLine (b.view s') := by
+          unfold Proofs.nextLine; rw [← hca]
+        rw [hnl]
+        have hidx : s' + ((b.view s').take (l0r_lineLen (b.view s'))).length =
+            s1 + ((b.view s1).take (Model.nextLineDist (bnd.view 0) (b.view s1))).length := by
+          have hd : Model.nextLineDist (bnd.view 0) (b.view s1) =
+              (b.view s1).length - (Model.skipLine (b.view s')).length := by
+            unfold Model.nextLineDist; rw [← hca]
+          have hsl : (Model.skipLine (b.view s')).length = (b.view s').length - l0r_lineLen (b.view s') := by
+            rw [l0r_skipLine_drop, List.length_drop]
+          have hL := l0r_lineLen_le (b.view s')
+          have hV : (b.view s1).length = pfx.length + (b.view s').length := by rw [hvs']; simp
+          rw [List.length_take, List.length_take, hd, hsl]
+          omega
+        rw [hidx]
       rw [startsWithLit_spec hn1 [45, 45] (by decide)]
       by_cases hsw : startsWith (b.view s1) [45, 45] = true
       · simp only [hsw]
@@ -333,12 +337,13 @@ theorem l0r_findBoundaryLoop_refines (bnd b : Buf) (hb : bnd.HasNul 0) (hnl : 10
           simp only
           generalize hV3 : b.view (s1 + 2 + (bnd.view 0).length) = V3 at hsplit3 hv3
           have hD3 := l0r_delim_3 (bnd.view 0) V3
-          rw [← hsplit3, ← hsplit2] at hD3
+          have hC3 := l0r_cont_3 (bnd.view 0) V3
+          rw [← hsplit3, ← hsplit2] at hD3 hC3
           -- the position after the optional "--"
           have hpos4 : ∃ pfx4, b.HasNul (afterDashes (s1 + 2 + (bnd.view 0).length) (startsWith V3 [45, 45])) ∧
               b.view (afterDashes (s1 + 2 + (bnd.view 0).length) (startsWith V3 [45, 45])) =
                 (if startsWith V3 [45, 45] then V3.drop 2 else V3) ∧
-              V3 = pfx4 ++ (if startsWith V3 [45, 45] then V3.drop 2 else V3) ∧ 10 ∉ pfx4 ∧
+              V3 = pfx4 ++ (if startsWith V3 [45, 45] then V3.drop 2 else V3) ∧
               afterDashes (s1 + 2 + (bnd.view 0).length) (startsWith V3 [45, 45]) =
                 s1 + 2 + (bnd.view 0).length + pfx4.length := by
             unfold afterDashes
@@ -346,25 +351,23 @@ theorem l0r_findBoundaryLoop_refines (bnd b : Buf) (hb : bnd.HasNul 0) (hnl : 10
             · simp only [ht, if_true]
               obtain ⟨hn4, hv4⟩ := hn3.add 2 (by rw [hV3]; exact startsWith_length ht)
               rw [hV3] at hv4
-              exact ⟨[45, 45], hn4, hv4, l0r_startsWith_split ht, by decide, rfl⟩
+              exact ⟨[45, 45], hn4, hv4, l0r_startsWith_split ht, rfl⟩
             · simp only [ht, Bool.false_eq_true, if_false]
-              exact ⟨[], hn3, hV3, rfl, by simp, rfl⟩
-          obtain ⟨pfx4, hn4, hv4, hsplit4, hp4, hpos4'⟩ := hpos4
+              exact ⟨[], hn3, hV3, rfl, rfl⟩
+          obtain ⟨pfx4, hn4, hv4, hsplit4, hpos4'⟩ := hpos4
           generalize afterDashes (s1 + 2 + (bnd.view 0).length) (startsWith V3 [45, 45]) = p4 at hn4 hv4 hpos4' ⊢
           have hfull : b.view s1 = ([45, 45] ++ bnd.view 0 ++ pfx4) ++ b.view p4 := by
             rw [hv4, hsplit2, hsplit3]
             conv => lhs; rw [hsplit4]
             simp
-          have hpfx : 10 ∉ [45, 45] ++ bnd.view 0 ++ pfx4 := by
-            simp only [List.mem_append, not_or]
-            exact ⟨⟨by decide, hnl⟩, hp4⟩
           have hposf : p4 = s1 + ([45, 45] ++ bnd.view 0 ++ pfx4).length := by
             simp only [List.length_append, List.length_cons, List.length_nil]; omega
+          have hca : b.view p4 = Model.continueAt (bnd.view 0) (b.view s1) := by rw [hC3, hv4]
           rcases hn4.cases with ⟨hg4, hvn4⟩ | ⟨c4, hc4, hg4, hvc4, _⟩
           · rw [hg4]
             simp only
             rw [← hv4, hvn4] at hD3
-            exact hcont p4 _ hn4 hfull hpfx hposf hD3
+            exact hcont p4 _ hn4 hfull hposf hca hD3
           · rw [hg4]
             simp only
             rw [← hv4, hvc4] at hD3
@@ -372,10 +375,7 @@ theorem l0r_findBoundaryLoop_refines (bnd b : Buf) (hb : bnd.HasNul 0) (hnl : 10
             · have hD : Model.delimiterLine (bnd.view 0) (b.view s1) = some (startsWith V3 [45, 45]) := by
                 rw [hD3, h10]
                 first | rfl | simp
-              rw [if_pos h10]
-              rw [hv] at hD ⊢
-              rw [Proofs.findBoundaryAux_cons]
-              simp only [if_true, hD]
+              rw [if_pos h10, Proofs.findBoundaryAux_found hD]
               simp [l0r_shift]
             · rw [if_neg h10]
               have hD : Model.delimiterLine (bnd.view 0) (b.view s1) = none := by
@@ -383,23 +383,25 @@ theorem l0r_findBoundaryLoop_refines (bnd b : Buf) (hb : bnd.HasNul 0) (hnl : 10
                 split
                 · rename_i heq; simp at heq; exact absurd heq.1 h10
                 · rfl
-              exact hcont p4 _ hn4 hfull hpfx hposf hD
+              exact hcont p4 _ hn4 hfull hposf hca hD
         · have hcmp' : startsWith (b.view (s1 + 2)) (bnd.view 0) = false := by simpa using hcmp
           simp only [hcmp']
           have hD : Model.delimiterLine (bnd.view 0) (b.view s1) = none := by
             rw [hsplit2]; exact l0r_delim_none2 hcmp'
-          exact hcont (s1 + 2) [45, 45] hn2 hsplit2 (by decide) rfl hD
+          have hca : b.view (s1 + 2) = Model.continueAt (bnd.view 0) (b.view s1) := by
+            rw [hsplit2, l0r_cont_2 hcmp']
+          exact hcont (s1 + 2) [45, 45] hn2 hsplit2 rfl hca hD
       · have hsw' : startsWith (b.view s1) [45, 45] = false := by simpa using hsw
         simp only [hsw']
-        exact hcont s1 [] hn1 rfl (by simp) rfl (l0r_delim_none1 hsw')
+        exact hcont s1 [] hn1 rfl rfl (l0r_cont_1 hsw').symm (l0r_delim_none1 hsw')
 
-/-- `findboundary` with a newline-free boundary returns the list model's result: `beg = s + |before|` and the
-terminator flag. -/
-theorem l0r_findBoundary_refines (bnd b : Buf) (hb : bnd.HasNul 0) (hnl : 10 ∉ bnd.view 0) {s : Nat} (h : b.HasNul s) :
+/-- `findboundary` returns the list model's result, for every boundary (a newline in it included):
+`beg = s + |before|` and the terminator flag. -/
+theorem l0r_findBoundary_refines (bnd b : Buf) (hb : bnd.HasNul 0) {s : Nat} (h : b.HasNul s) :
     findBoundary bnd b s = .ok ((Model.findBoundary (bnd.view 0) (b.view s)).map (l0r_shift s)) := by
   unfold findBoundary Model.findBoundary
   rw [strlen_spec hb]
-  exact l0r_findBoundaryLoop_refines bnd b hb hnl _ s false rfl h
+  exact l0r_findBoundaryLoop_refines bnd b hb _ s false rfl h
 
 /-- What the position means: the text before it is `before`, the view at it is the L1 `rest` (the delimiter line on). -/
 theorem l0r_findBoundary_pos {B : Bytes} {b : Buf} {s : Nat} (h : b.HasNul s) {pre rest : Bytes} {term : Bool}
@@ -411,21 +413,17 @@ theorem l0r_findBoundary_pos {B : Bytes} {b : Buf} {s : Nat} (h : b.HasNul s) {p
   rw [h.slice_view pre.length (by rw [h1]; simp), h1]
   simp
 
-/-! ## the full statement is false -/
+/-! ## a boundary with a newline
 
-/-- The refinement of `findboundary` for every boundary. -/
-def l0r_findBoundary_refines_unrestricted : Prop :=
-  ∀ (bnd b : Buf) (s : Nat), bnd.HasNul 0 → b.HasNul s →
-    findBoundary bnd b s = .ok ((Model.findBoundary (bnd.view 0) (b.view s)).map (l0r_shift s))
-
-/-- Boundary `"a\n"` and text `"--a\n--a\n\n"`: the C code compares `"--"`, `"a\n"`, `"--"` from offset 0, does not
+Boundary `"a\n"` and text `"--a\n--a\n\n"`: the C code compares `"--"`, `"a\n"`, `"--"` from offset 0, does not
 find a newline after them and resumes with `skipline` from offset 6, so the line at offset 4 is never examined and
-it returns NULL; the list model examines every line start and reports the delimiter line at offset 4. -/
+it returns NULL.  (A list model that examines every line start reports the delimiter line at offset 4 - the former
+`Model.findBoundaryAux` did; this input separated it from message.c.) -/
+
 def l0r_witBnd : Buf := Buf.ofBytes [97, 10]
 def l0r_witText : Buf := Buf.ofBytes [45, 45, 97, 10, 45, 45, 97, 10, 10]
 
-theorem l0r_witness_L1 :
-    Model.findBoundary (l0r_witBnd.view 0) (l0r_witText.view 0) = some ([45, 45, 97, 10], false, [45, 45, 97, 10, 10]) := by
+theorem l0r_witness_L1 : Model.findBoundary (l0r_witBnd.view 0) (l0r_witText.view 0) = none := by
   decide +kernel
 
 theorem l0r_witness_hasNul (b : Buf) (hb : b.Terminated) (i : Nat) (hi : i < b.size) : b.HasNul i := hb.hasNul hi
@@ -472,10 +470,14 @@ theorem l0r_witness_L0 : findBoundary l0r_witBnd l0r_witText 0 = .ok none := by
   rw [findBoundaryLoop_eq e8 g9]
   simp
 
-theorem l0r_findBoundary_newline_witness : ¬ l0r_findBoundary_refines_unrestricted := by
-  intro hall
-  have := hall l0r_witBnd l0r_witText 0 (ofBytes_terminated _).hasNul0 (ofBytes_terminated _).hasNul0
-  rw [l0r_witness_L0, l0r_witness_L1] at this
-  simp at this
+/-- The boundary contains a newline, and both levels return NULL (`l0r_witness_L0` is computed step by step,
+independently of `l0r_findBoundary_refines`). -/
+theorem l0r_findBoundary_newline_example :
+    10 ∈ l0r_witBnd.view 0 ∧
+    findBoundary l0r_witBnd l0r_witText 0 =
+      .ok ((Model.findBoundary (l0r_witBnd.view 0) (l0r_witText.view 0)).map (l0r_shift 0)) := by
+  refine ⟨by decide +kernel, ?_⟩
+  rw [l0r_witness_L0, l0r_witness_L1]
+  rfl
 
 end Mdsort.L0
